@@ -79,7 +79,7 @@ def _probes(ctx):
 
 
 def run(ctx):
-    session.run_sessions(ctx, ctx.scale(220, 5000), ctx.scale(12, 30), ['reparse'], syntax_preserving=True, auto_claim_only=True)
+    session.run_sessions(ctx, ctx.scale(220, 5000), ctx.scale(12, 30), ['reparse', 'fresh'], syntax_preserving=True, auto_claim_only=True)
     slicegrid.run(ctx, ['reparse'], syntax_preserving=True)
     import slotgrid
     slotgrid.run(ctx, ['reparse'])
@@ -88,7 +88,7 @@ def run(ctx):
 
 
 def search(ctx, hints):
-    session.run_sessions(ctx, ctx.scale(1500, 8000), 25, ['reparse'], syntax_preserving=True, auto_claim_only=True)
+    session.run_sessions(ctx, ctx.scale(1500, 8000), 25, ['reparse', 'fresh'], syntax_preserving=True, auto_claim_only=True)
     _classify(ctx)
 
 
@@ -97,4 +97,4 @@ def replay(ctx, data):
     if rep.get('probe'):
         c = type('C', (), {'oracle_fails': [], 'case': lambda *a, **k: None, 'oracle_fail': lambda self, *a: self.oracle_fails.append(a)})()
         return False
-    return not session.replay(data, ['reparse'])
+    return not session.replay(data, ['reparse', 'fresh'])
